@@ -57,13 +57,26 @@ class SearchView:
           item = call.args[1]
           dn, ctor = n, item
           if isinstance(item, ast.Name):
-            d = self.rd.single_def(n, item.id)
+            def live_def(at, nm):
+              """The one definition that can be in force: the unique one, or the only non-None one under an `is not None` guard."""
+              d_ = self.rd.single_def(at, nm)
+              if d_ is None:
+                ds_ = [x for x in self.rd.defs_at(at, nm) if not (x.how == 'assign' and isinstance(x.value, ast.Constant) and x.value.value is None)]
+                if len(ds_) == 1 and self.rd.nonnull_at(at, nm):
+                  d_ = ds_[0]
+              return d_
+            d = live_def(n, item.id)
             if d is None or d.how != 'assign':
-              raise Undecided('pushed object %s has no unique definition in %s' % (item.id, name))
+              # several constructions reach the push (or none is visible): the push is kept as an unresolved one, so that the
+              # rules say so per push instead of giving up on the whole search
+              self.pushed.append(Pushed.__new__(Pushed))
+              p = self.pushed[-1]
+              p.node, p.push_call, p.design_node, p.ctor, p.args = n, call, n, item, {}
+              continue
             dn, ctor = d.node, d.value
             hops = 0
             while isinstance(ctor, ast.Name) and hops < 4:      # design = result_of_helper = TBRMMDesign(...)
-              d2 = self.rd.single_def(dn, ctor.id)
+              d2 = live_def(dn, ctor.id)
               if d2 is None or d2.how != 'assign' or d2.value is None:
                 break
               dn, ctor, hops = d2.node, d2.value, hops + 1
